@@ -1,4 +1,5 @@
 pub mod eng;
+pub mod fuzz_entry;
 pub mod engsess;
 pub mod gen;
 pub mod props;
